@@ -12,7 +12,7 @@ func init() {
 	Register(&Property{
 		ID: "C20",
 		Decides: "(R20.1) every (object, header, body) triple put into a last-value cache slot — the permanent databases' last block map / last suffrage proof, the block writer's and the temp database's copies — has all three components assigned from a non-nil source (never a never-assigned variable or a nil constant), and on the reload paths header and body come from the same decoded frame as the object; " +
-			"(R20.2) both permanent back-ends' constructors reload every slot the merge path maintains (encoder hint, block map, suffrage proof, network policy) and fail if a reload fails; (R20.3) writer and reader sides of each record kind use a compatible frame codec pair.; (R20.k) every leveldb key builder carries each of its parameters in full under its own prefix constant; (R20.j) jobs handed to a worker read only captured variables that the submitter does not assign again (no job works on a later batch/slot than the one it was created for)",
+			"(R20.2) both permanent back-ends' constructors reload every slot the merge path maintains (encoder hint, block map, suffrage proof, network policy) and fail if a reload fails; (R20.3) writer and reader sides of each record kind use a compatible frame codec pair.; (R20.k) every leveldb key builder carries each of its parameters in full under its own prefix constant; (R20.j) jobs handed to a worker read only captured variables that the submitter does not assign again (no job works on a later batch/slot than the one it was created for); (R20.c) wherever a pool operation record is deleted, the operation is dropped from the operation cache (or there is no cache) before the function returns",
 		NotDecided: "byte equality of what is served before and after reopening for all histories; pool contents; what leveldb/redis persist.",
 		Run:        runC20,
 	})
@@ -94,6 +94,19 @@ func tripleStores(c *Ctx, fn *ssa.Function, lit ssa.Value) map[int]ssa.Value {
 }
 
 func runC20(c *Ctx) {
+	// R20.c: the pool's operation cache holds nothing the store no longer has
+	c.Rule("R20.c", "MustPass")
+	ndel := 0
+	for _, f := range c.FuncsWithPrefix("isaac/database.") {
+		for _, in := range c.CallsD(f, "*.Delete(isaacdatabase.leveldbNewOperationKey(*))") {
+			ndel++
+			arg := c.D(CallArg(in, 0))
+			h := strings.TrimSuffix(strings.TrimPrefix(arg, "isaacdatabase.leveldbNewOperationKey("), ")")
+			c.MPFrom(f, in, "a deleted pool operation is also dropped from the operation cache", Returns2(f), 1,
+				GCalled("db.opcache.Remove("+h+".String())"), GNil("db.opcache"))
+		}
+	}
+	c.Floor(nil, "deletions of pool operation records", ndel, 1)
 	c.Rule("R20.j", "AsyncCapture")
 	c.AsyncCaptures(c.Need("isaac/database.(*LeveldbPermanent).mergeTempDatabaseFromLeveldb"), "*.NewJob", 2)
 	c.Rule("R20.k", "KeyTable")
@@ -435,4 +448,13 @@ func addressEscapes(c *Ctx, al *ssa.Alloc) bool {
 		}
 	}
 	return false
+}
+
+// Returns2: the return instructions of fn as generic instructions.
+func Returns2(fn *ssa.Function) []ssa.Instruction {
+	var out []ssa.Instruction
+	for _, r := range Returns(fn) {
+		out = append(out, r)
+	}
+	return out
 }
